@@ -761,17 +761,17 @@ static void ref_case(uint64_t idx, void *arg)
 /* ops: 0..2 TOKEN_REQ(bg) x3, 3 TOKEN_REQ(interactive), 4 NOTIFY(TOKEN), 5 NOTIFY(RELEASE), 6 NOTIFY(FLUSH), 7 RECLAIM_CNF,
  * 8 disconnect, 9 stall/unstall */
 static struct tk_cfg cfgs[] = {
-        { 2, 2, 0x0B3, 0, 1, "token-2c-core",   40, 60 },  /* REQ(dur0), REQ(dur2), NOTIFY(TOKEN), NOTIFY(RELEASE), RECLAIM_CNF, tick */
-        { 2, 2, 0x2B7, 0, 1, "token-2c-stall",  6, 60 },   /* + REQ(sub=0x20), stall/unstall */
-        { 2, 2, OPS_ALL, 1, 1, "token-2c-full", 5, 8 },
-        { 3, 3, 0x0B1, 0, 1, "token-3c-core",   5, 60 },   /* REQ(dur0), NOTIFY(TOKEN), NOTIFY(RELEASE), RECLAIM_CNF, tick */
-        { 3, 3, 0x2B7, 0, 1, "token-3c-stall",  4, 7 },
+        { 2, 2, 0x0B3, 0, 1, "token-2c-core",   40, 60 },  /* REQ(dur0), REQ(dur2), NOTIFY(TOKEN), NOTIFY(RELEASE), RECLAIM_CNF, tick: fixpoint (7.6 k states) */
+        { 3, 3, 0x0B1, 0, 1, "token-3c-core",   5, 60 },   /* 3 clients: REQ(dur0), NOTIFY(TOKEN), NOTIFY(RELEASE), RECLAIM_CNF, tick: fixpoint in thorough (95 k states) */
+        { 2, 2, OPS_ALL, 1, 1, "token-2c-full", 5, 6 },    /* every letter incl. interactive, FLUSH, disconnect, connect: bounded depth */
+        { 3, 3, 0x2B7, 0, 1, "token-3c-stall",  4, 5 },    /* 3 clients with stall: bounded depth */
+        { 2, 2, 0x2B7, 0, 1, "token-2c-stall",  6, 60 },   /* + REQ(sub=0x20), stall/unstall: fixpoint in thorough (1.25 M states, depth 24) */
 };
 
 int main(int argc, char **argv)
 {
         mc_init(argc, argv, "C19");
-        mc_set_budget(150, 1500);
+        mc_set_budget(150, 3000);
         mc_meta("level", "model_checking");
         mc_meta("technique", "explicit-state search to a fixpoint over the token protocol on the real daemon code (histories replayed on a fresh in-process daemon, canonical state hashing, invariant at every select()), plus exhaustive single-fault enumeration on one client's byte stream with a witness client");
         mc_meta("rule", "token part: a state is the canonical daemon+environment state reached by a letter history (client records in list order, token/scheduler fields, pending I/O, alarm); a transition is one client message / disconnect / stall toggle / connection / second; every transition is executed on the real daemon. fault part: one case = (connection state of the faulty client, message template, mutation, aftermath); distinct = distinct case descriptors executed");
@@ -779,12 +779,19 @@ int main(int argc, char **argv)
         mc_meta("assume", "token part: environment alphabet limited to sub_prio {0x10,0x20}, min_duration {0,2}, 1 s ticks; a client keeps at most one unread message in flight; ages above 3 s are merged (no comparison in the scheduler distinguishes them for min_duration <= 2)");
         build_templates();
 
+        const char *only = getenv("C19_ONLY");          /* development aid: "token", "faults" or "cfg=<name>" */
+        /* ---- part (a): faults ---- */
+        build_cases();
+        mc_meta("bound", "token: 5 alphabets (2 and 3 clients; core / +stall / full) to a fixpoint or to depth %d..%d (see notes); faults: %llu single-fault cases = %d connection states x %d message templates x {9 header lengths, all types, every body byte x %s values, truncation at every byte x {silence, silence+70 s, disconnect}, message pairs} + all 256 strict values",
+                mc_tier == MC_THOROUGH ? 7 : 4, mc_tier == MC_THOROUGH ? 60 : 40,
+                (unsigned long long) nFC, N_ST, nT, mc_tier == MC_THOROUGH ? "256 (short messages)" : "5");
+        if (!only || (strcmp(only, "token") && strncmp(only, "cfg=", 4))) mc_pool("faults", (nFC + FBATCH - 1) / FBATCH, fault_case, NULL, 60);
         /* ---- part (b): token machine ---- */
         int ncfg = sizeof cfgs / sizeof cfgs[0];
         for (int i = 0; i < ncfg; i++) tk_cfg_init(&cfgs[i]);
-        const char *only = getenv("C19_ONLY");          /* development aid: "token" or "faults" */
         if (only && !strcmp(only, "faults")) ncfg = 0;
         for (int i = 0; i < ncfg; i++) {
+                if (only && !strncmp(only, "cfg=", 4) && strcmp(only + 4, cfgs[i].name)) continue;
                 mc_bfs_spec sp; memset(&sp, 0, sizeof sp);
                 sp.nletters = cfgs[i].nletters;
                 sp.max_depth = mc_tier == MC_THOROUGH ? cfgs[i].tdepth : cfgs[i].qdepth;
@@ -799,11 +806,5 @@ int main(int argc, char **argv)
                 (void) rc;
         }
 
-        /* ---- part (a): faults ---- */
-        build_cases();
-        mc_meta("bound", "token: 5 alphabets (2 and 3 clients; core / +stall / full) to a fixpoint or to depth %d..%d (see notes); faults: %llu single-fault cases = %d connection states x %d message templates x {9 header lengths, all types, every body byte x %s values, truncation at every byte x {silence, silence+70 s, disconnect}, message pairs} + all 256 strict values",
-                mc_tier == MC_THOROUGH ? 7 : 4, mc_tier == MC_THOROUGH ? 60 : 40,
-                (unsigned long long) nFC, N_ST, nT, mc_tier == MC_THOROUGH ? "256 (short messages)" : "5");
-        if (!only || strcmp(only, "token")) mc_pool("faults", (nFC + FBATCH - 1) / FBATCH, fault_case, NULL, 60);
         return mc_finish();
 }
